@@ -395,6 +395,28 @@ def _(c):
         other.propagator = p
         other.propagate(d1)
         c.ensure("shared_propagator_rebinds", np.asarray(src.propagate(d1), dtype=float).tobytes() == a)
+        if prop not in ("sgp4", "cw"):
+            # a clearly different second orbit through the SAME propagator object, after the first: its answer is the one a fresh orbit with a fresh propagator gives
+            def changed(o):
+                o[:3] = np.asarray(o[:3], dtype=float) * 1.15
+                o[3:] = np.asarray(o[3:], dtype=float) * 0.97
+                return o
+            second, _ = _make(prop)
+            second = changed(second)
+            second.propagator = p
+            ref2, _ = _make(prop)
+            ref2 = changed(ref2)
+            tol = 0.05 if prop.startswith("num") else 1e-6
+            close = lambda x, y: bool(np.linalg.norm(np.asarray(x.copy(form="cartesian"), dtype=float)[:3] - np.asarray(y.copy(form="cartesian"), dtype=float)[:3]) <= tol)
+            c.ensure("second_orbit_through_a_used_propagator", close(second.propagate(d1), ref2.propagate(d1)))
+            # the same orbit object changed in place between two propagations: the second answer is for the state as it is now
+            third, _ = _make(prop)
+            third.propagate(d1)
+            third = changed(third)
+            c.ensure("orbit_changed_in_place_between_calls", close(third.propagate(d1), ref2.propagate(d1)))
+            steps = [np.asarray(x.copy(form="cartesian"), dtype=float)[:3] for x in third.iter(start=d0, stop=d0 + timedelta(seconds=1200), step=timedelta(seconds=600))]
+            want = [np.asarray(ref2.propagate(d0 + timedelta(seconds=600 * k)).copy(form="cartesian"), dtype=float)[:3] for k in range(3)]
+            c.ensure("orbit_changed_in_place_between_calls.iter", len(steps) == 3 and all(np.linalg.norm(x - y) <= max(tol, 0.05 if prop.startswith("num") else tol) for x, y in zip(steps, want)))
     if before is not None:
         c.ensure("initial_orbit_untouched", bool(np.array_equal(np.asarray(src, dtype=float), before) and src.date == d0))
 
